@@ -256,18 +256,38 @@ func (m *Manager) logEditsLocked(edits []Edit) error {
 			syncNeeded = true
 		}
 	}
-	if _, err := m.manifest.Write(buf.Bytes()); err != nil {
+	// The edits are reported as failed, and left out of the in-memory version, when the
+	// append or its sync fails. Whatever reached the file by then must go too: a complete
+	// record would be replayed by the next Open although it was never applied, and a torn one
+	// would swallow every edit appended after it.
+	start, err := m.manifest.Seek(0, io.SeekCurrent)
+	if err != nil {
 		return err
+	}
+	if _, err := m.manifest.Write(buf.Bytes()); err != nil {
+		return m.discardAppendLocked(start, err)
 	}
 	if syncNeeded && m.syncWrites {
 		if err := m.manifest.Sync(); err != nil {
-			return err
+			return m.discardAppendLocked(start, err)
 		}
 	}
 	for _, edit := range edits {
 		m.apply(edit)
 	}
 	return m.maybeRewriteLocked()
+}
+
+// discardAppendLocked cuts the manifest back to the offset at which a failed append started
+// and returns cause, joined with the error of the cut if that fails as well.
+func (m *Manager) discardAppendLocked(start int64, cause error) error {
+	if err := m.manifest.Truncate(start); err != nil {
+		return errors.Join(cause, err)
+	}
+	if _, err := m.manifest.Seek(start, io.SeekStart); err != nil {
+		return errors.Join(cause, err)
+	}
+	return cause
 }
 
 func requiresSync(edit Edit) bool {
